@@ -41,6 +41,22 @@ def scenarios(tier, seed):
         for tmin in (0, -2):
             out.append({"sim": "discrete_SIR(recovery test)", "rectest": 1, "n": n, "edges": edges, "tmin": tmin, "seed": gi,
                         "init_kw": {"initial_recovereds": [2]} if gi % 2 else {}})
+    # generic simulators: multi-status models, all statuses or only a subset of them reported
+    from harness import contagion
+    grng = pyrandom.Random(seed + 1010)
+    for k in range(120 if tier == "quick" else 1200):
+        mname = grng.choice(["SIRS", "SEIR", "SIRV", "compete", "cooperate", "SIR"])
+        sts = contagion.MODELS[mname][0]
+        n = grng.randint(3, 7)
+        adj = [[0] * n for _ in range(n)]
+        for u in range(n):
+            for v in range(u + 1, n):
+                if grng.random() < 0.5:
+                    adj[u][v] = adj[v][u] = 1
+        drop = grng.choice([None, None, 0, 1, len(sts) - 1])
+        out.append({"sim": "Gillespie_simple_contagion(%s%s)" % (mname, "" if drop is None else ", return_statuses without %s" % sts[drop]),
+                    "generic": mname, "n": n, "adj": adj, "ic": [grng.choice(sts) for _ in range(n)], "drop": drop,
+                    "tmin": grng.choice([0, 1.5]), "seed": k, "init_kw": {}})
     # table-driven event-driven SIR with ties, zero and infinite values and horizons that coincide with event times
     from harness import event_scn
     for k, es in enumerate(event_scn.sir_scenarios(seed + 10, 400 if tier == "quick" else 4000, exhaustive2=False)):
@@ -65,13 +81,28 @@ def _record(i):
     sc = _G["scn"][i]
     EoN = _G["EoN"]
     sim = sc["sim"]
-    kind = "SIR" if ("ties" in sc or "rectest" in sc) else simruns.kind_of(sim)
+    kind = "SIR" if ("ties" in sc or "rectest" in sc or "generic" in sc) else simruns.kind_of(sim)
     w = None
     if sc.get("weighted"):
         w = {"g": [1.0 + (u % 3) * 0.5 for u in range(sc["n"])], "w": [0.5 + (k % 4) * 0.5 for k in range(len(sc["edges"]))]}
     sts = ["S", "I", "R"] if kind == "SIR" else ["S", "I"]
     try:
-        if "rectest" in sc:
+        if "generic" in sc:
+            from harness import contagion
+            allsts, sp, ind = contagion.MODELS[sc["generic"]]
+            n_ = sc["n"]
+            cs = {"model": sc["generic"], "n": n_, "statuses": allsts, "adj": sc["adj"], "directed": 0, "wmode": "none",
+                  "spont": [{"from": a, "to": b, "rate": r, "nw": [1] * n_} for (a, b, r) in sp],
+                  "induced": [{"a": a, "b": b, "c": c, "rate": r, "ew": sc["adj"]} for (a, b, c, r) in ind]}
+            G, H, J, calls = contagion.build(cs)
+            IC = {u: sc["ic"][u - 1] for u in range(1, n_ + 1)}
+            sts = [x for k_, x in enumerate(allsts) if k_ != sc["drop"]]
+            moves_all = [[a, b] for (a, b, r) in sp] + [[b, c] for (a, b, c, r) in ind]
+            simruns.seed_all(sc["seed"])
+            arrs = [list(map(float, a)) for a in EoN.Gillespie_simple_contagion(G, H, J, IC, sts, tmin=sc["tmin"], tmax=sc["tmin"] + 3.0)]
+            simruns.seed_all(sc["seed"])
+            obj = EoN.Gillespie_simple_contagion(G, H, J, IC, sts, tmin=sc["tmin"], tmax=sc["tmin"] + 3.0, return_full_data=True)
+        elif "rectest" in sc:
             G = simruns.make_graph(sc["n"], sc["edges"])
 
             def run(full):
@@ -100,9 +131,15 @@ def _record(i):
         hist = {u: ([float(t) for t in obj.node_history(u)[0]], list(obj.node_history(u)[1])) for u in nodes}
         summ = obj.summary()
         acc_t = [float(x) for x in obj.t()]
-        acc = {"S": obj.S(), "I": obj.I()}
-        if kind == "SIR":
-            acc["R"] = obj.R()
+        if "generic" in sc:
+            acc = {x: summ[1][x] for x in sts}
+            for nm_, f_ in (("S", obj.S), ("I", obj.I), ("R", obj.R)):
+                if nm_ in sts:
+                    acc[nm_] = f_()
+        else:
+            acc = {"S": obj.S(), "I": obj.I()}
+            if kind == "SIR":
+                acc["R"] = obj.R()
         rng = pyrandom.Random(sc["seed"])
         sub = sorted(rng.sample(nodes, max(1, len(nodes) // 2)))
         # "any node subset": a list, a set, a tuple, a one-shot iterator or a generator
@@ -139,7 +176,7 @@ def _record(i):
 
         def rows(tt, cols):
             return [[enc.get(float(t), 999999)] + [int(c[k]) for c in cols] for k, t in enumerate(tt)]
-        tr = {"sim": sim, "n": sc["n"], "tmin": enc[float(sc["tmin"])], "statuses": sts, "moves": MOVES[kind],
+        tr = {"sim": sim, "n": sc["n"], "tmin": enc[float(sc["tmin"])], "statuses": sts, "moves": (moves_all if "generic" in sc else MOVES[kind]),
               "hist": [[[enc.get(t, 999999), s] for t, s in zip(*hist[u])] for u in nodes],
               "summ": rows(summ[0], [summ[1][s] for s in sts]),
               "acc": rows(acc_t, [acc[s] for s in sts]),
